@@ -67,8 +67,7 @@ def hubAgree (q : Seq) : Bool :=
 
 /-- apply `HOp`s for the sessions that a machine-level `Close` reached: every session whose
     status left {Preparing, Ok} during the operation is a `close`/`disconnect` in the index model.
-    Order: ascending index (the deletions commute unless ids are shared, in which case the
-    cross-check may legitimately report a difference). -/
+    Order: ascending index (the deletions commute: each removes only its own session's entry). -/
 def syncKills (before after : World) (h0 h1 : HSt) : HSt × HSt :=
   (List.range after.sess.length).foldl (fun (acc : HSt × HSt) i =>
     match after.sess[i]? with
@@ -92,14 +91,17 @@ def histOp (q : Seq) (op : String) : Option (Seq × String) :=
     if k == 'a' || k == 'l' then
       let hook := (rest.find? (·.1 == 's')).map (·.2)
       let rej := rest.any (·.1 == 'r')
+      let hc := rest.any (·.1 == 'x')       -- the accept hook calls `Close()` on the session
       let a := q.w.sess.length
       let w1 := q.w.opServe 0 (a + 1) (2 * name) .serve none false
-      let w2 := w1.opServe 1 a (2 * name) (if k == 'a' then .serve else .listen) hook rej
+      let w2 := w1.opServe 1 a (2 * name) (if k == 'a' then .serve else .listen) hook rej hc
       -- index-only models: the operation itself, then the closes it caused on other sessions
       -- (the first end is served and everything settles before the second end is served)
       let g0 := q.h0.apply (.accept (2 * name) none false)
       let (g0, g1) := syncKills q.w w1 g0 q.h1
-      let g1 := g1.apply (.accept (2 * name) hook rej)
+      -- a session closed in its accept hook leaves the index like a refused one (the sessions its
+      -- `hub.set` closed on the listener path are replayed by `syncKills`)
+      let g1 := g1.apply (.accept (2 * name) hook (rej || hc))
       let q1 : Seq := { q with w := w2, h0 := g0, h1 := g1 }
       some (q1, if rej then "rej" else "ok")
     else if k == 'i' then
@@ -166,6 +168,7 @@ def storesStatus (b : Core) (e : LEv) : Bool :=
   | .closeCall => b.st = .ok || b.st = .preparing
   | .cStore | .dClosed | .storeOk => true
   | .dStore => !(b.rst = .passiveClosed || b.rst = .activeClosed || b.rst = .passiveClosing || b.rst = .activeClosing)
+      && b.st = b.rst
   | _ => false
 
 /-- run lifecycle steps of session 1 (the served end), recording what the Event hook reports. -/
@@ -227,6 +230,10 @@ def schedR (s : Sched) : Sched × String :=
       let s1 := schedSteps s [.dStore]
       let c := coreOf s1
       if c.reader = .done then ({ s1 with r := .ended }, "end")
+      else if c.reader = .disc0 then
+        -- the compare-and-swap failed: the reader loads again and is back at the same gate
+        let s2 := schedSteps s1 [.dLoad]
+        ({ s2 with r := .at "disc.load" }, "disc.load")
       else if c.rst = .activeClosing then
         let s2 := schedSteps s1 [.dHubDel]
         ({ s2 with r := .at "disc.cancel" }, "disc.cancel")
